@@ -41,6 +41,19 @@ pub fn check_one(account: &str, mark: &str, rest: &str, numeric_len: Option<usiz
             }
         }
     }
+    // assertion-only posting: `=` falls where it would after an amount in that commodity
+    // (numeric part ending at column 52, then " <commodity>", then " =")
+    if numeric_len.is_none() && rest.starts_with("= ") {
+        let value = &rest[2..];
+        let commodity = value.split_once(' ').map(|x| x.1).unwrap_or("");
+        let trailing = if commodity.is_empty() { 0 } else { 1 + width(commodity) };
+        if aw + 3 <= 50 + trailing {
+            let eq_col = 4 + aw + spaces + 1;
+            if eq_col != 52 + trailing + 2 {
+                return Some((input, format!("`=` is in column {}, after an amount it would be in column {}: {:?}", eq_col, 52 + trailing + 2, line)));
+            }
+        }
+    }
     // formatting what was formatted changes nothing (and so re-parses to the same entries)
     match fmt(&out) {
         Ok(again) if again == out => None,
